@@ -781,7 +781,7 @@ pub fn run(cfg: &Cfg, rep: &mut Report) -> PropMeta {
     rep.note(&format!("{} configurations (N, t bit size, prime choice); every configuration: all N unit vectors, all N monomials, all N-2 rotation steps in three forms, column swap", confs.len()));
     PropMeta {
         id: "C11", level: "exploration",
-        rule: "configurations: N = 2..1024 (quick) / 2..8192 (thorough) x every t bit size 4..60 for which a prime t = 1 mod 2N exists x {smallest, largest (PlainModulus::batching), 4 (quick) / 6 (thorough, N <= 1024) / 1 (thorough, N > 1024) seed-dependent random} primes, BFV/BGV, four kinds of coefficient modulus, SecurityLevel::None. Per configuration, exhaustively: the N unit vectors (encode vs. column N^-1 psi^(-e_j k)), the N monomials (decode vs. psi^(e_s k)), every rotation step 0<|s|<N/2 on the index-valued matrix through apply_galois_plain / _new / _inplace, the column swap; sampled: random / extreme / short vectors (round trip, Horner evaluation at all slots for N <= 256, 36 slots above), random polynomials (decode vs. Horner, encode(decode)), reference sums and schoolbook negacyclic products, encode_polynomial / decode_polynomial with coefficients below and above t. evaluations = vectors, polynomials, ring pairs and (step, form) pairs judged; distinct = (check, N, t bit size) classes",
+        rule: "configurations: N = 2..1024 (quick) / 2..8192 (thorough) x every t bit size 4..60 for which a prime t = 1 mod 2N exists x {smallest, largest (PlainModulus::batching), 4 (quick) / 6 (thorough, N <= 1024) / 1 (thorough, N > 1024) seed-dependent random} primes, BFV/BGV, four kinds of coefficient modulus, SecurityLevel::None. Per configuration, exhaustively: the N unit vectors (encode vs. column N^-1 psi^(-e_j k)), the N monomials (decode vs. psi^(e_s k)), every rotation step 0<|s|<N/2 on the index-valued matrix through apply_galois_plain / _new / _inplace, the column swap; sampled: random / extreme / short vectors (round trip, Horner evaluation at all slots for N <= 256, 36 slots above), random polynomials (decode vs. Horner, encode(decode)), reference sums and schoolbook negacyclic products, encode_polynomial / decode_polynomial with coefficients below and above t. evaluations = vectors, polynomials, ring pairs and (step, form) pairs judged; distinct = (check, N, t bit size) classes. Per configuration also the Galois tool's own entry points: apply / apply_p / apply_ps on pcount x k RNS polynomial stacks (pcount != k in most draws) against the reference automorphism, apply_ntt / apply_ntt_p / apply_ntt_ps against the transform of that expectation, get_elts_from_steps against the element-wise map and get_elts_all against {2N-1} + elements of the steps +-2^j",
         assumptions: vec![
             "u128 arithmetic of rustc; refm::is_prime (deterministic Miller-Rabin)".into(),
             "psi is taken from context_data.plain_ntt_tables().root() and only checked to be a primitive 2N-th root of unity mod t".into(),
